@@ -41,9 +41,10 @@ def prove_with_lock_discipline(ctx, module, theorems, drivers, threads=False):
     """the sequential channel model treats one API call as one atomic step; that is only true of a channel.c in which every access
     to the shared fields happens under the channel's lock — checked on the source as it is now (extract/syncskel.py regenerates
     Generated/SyncSkeleton.lean, the theorem is re-checked by the kernel)"""
-    from . import syncskel, rtcheck
+    from . import syncskel, rtcheck, chantr
     syncskel.regenerate(ctx)
-    rtcheck.prove_all(ctx, [(module, theorems, drivers),
+    chantr.regenerate(ctx)     # Generated/ChannelC.lean: channel.c as it is now, translated; the model must compute the same (kernel-checked)
+    rtcheck.prove_all(ctx, [(module, theorems, drivers), (chantr.MODULE, chantr.THEOREMS, []),
                             ("AcqVerif.Props.LockDiscipline", ["AcqVerif.LockDiscipline.lock_discipline_of_source"], [])] + (
                             [("AcqVerif.Props.ChanThreads", THREAD_THEOREMS, ["acq_conc"])] if threads else []))
 
